@@ -36,3 +36,29 @@
 (define-fun envFrom31 ((ik Int) (c CVSS31)) Int
   (ite (<= (mimpact31 c) 0.0) 0 (roundup31 (* (/ (to_real ik) 10.0) (tw31 c)))))
 (define-fun env31K ((c CVSS31)) Int (envFrom31 (envInner31K c) c))
+
+; ---- ParseVector (C01, C06, C13, C18): reference fold over the '/'-separated elements ----
+; State: which metrics were seen, and the code stored for each.  Elements are processed left to right;
+; the first defect decides the error.  (seen, vals) are indexed by the metric's position in the spec.
+(declare-datatypes ((PRes31 0)) (((mk-pres31 (p.err Err) (p.seen (Array Int Bool)) (p.vals (Array Int (_ BitVec 8)))))))
+(define-fun noneSeen () (Array Int Bool) ((as const (Array Int Bool)) false))
+(define-fun noVals () (Array Int (_ BitVec 8)) ((as const (Array Int (_ BitVec 8))) #x00))
+; fold31 is a recursive definition (measure: (s.len v) + 1 - s, which decreases because nextsep v s >= s).
+; It is given to the solvers as an uninterpreted function plus its defining equation fold31_def, which
+; the proofs instantiate explicitly (assume_def clauses in the contracts) where an unfolding is needed.
+(declare-fun fold31 (Str Int (Array Int Bool) (Array Int (_ BitVec 8))) PRes31)
+(define-fun fold31_def ((v Str) (s Int) (seen (Array Int Bool)) (vals (Array Int (_ BitVec 8)))) Bool
+  (= (fold31 v s seen vals)
+  (ite (or (< s 0) (> s (s.len v))) (mk-pres31 Nil seen vals)
+  (let ((el (substr v s (nextsep v s))))
+  (let ((m (midx31 (elemkey el))))
+  (ite (< m 0) (mk-pres31 (PErr T_ErrInvalidMetric (elemkey el)) seen vals)
+  (ite (select seen m) (mk-pres31 (PErr T_ErrDefinedN (elemkey el)) seen vals)
+  (ite (= (vcode31 m (elemval el)) #xff) (mk-pres31 ErrInvalidMetricValue seen vals)
+  (fold31 v (+ (nextsep v s) 1) (store seen m true) (store vals m (vcode31 m (elemval el))))))))))))
+(define-fun parseRes31 ((vector Str)) PRes31
+  (ite (not (hasHeader31 vector)) (mk-pres31 ErrInvalidCVSSHeader noneSeen noVals)
+  (let ((r (fold31 (substr vector HDRLEN31 (s.len vector)) 0 noneSeen noVals)))
+  (ite (not (= (p.err r) Nil)) r
+  (ite (>= (firstMissing31 (p.seen r)) 0) (mk-pres31 (PErr T_ErrMissing (vname31 (firstMissing31 (p.seen r)))) (p.seen r) (p.vals r))
+  r)))))
